@@ -1,6 +1,6 @@
 (* C17 — pinned statements. Nothing but statements, [exact] and Print Assumptions. *)
 From Coq Require Import List NArith Bool.
-From MV Require Import C17.Model C17.Spec C17.Proofs C17.Race C17.RaceProofs.
+From MV Require Import C17.Model C17.Spec C17.Proofs C17.Race C17.RaceProofs C17.JoinProofs.
 Import ListNotations.
 Local Open Scope N_scope.
 
@@ -90,6 +90,16 @@ Theorem c17_restore_attach_handle : forall s c0 h x, reach s -> nth_error (handl
 Proof. exact restore_handle. Qed.
 Print Assumptions c17_restore_attach_handle.
 
+(* "... after flushing what the detached sink had accepted": for every history of the global's own operations
+   (held BoxEntrySink clones excluded - they keep the queue alive by design) in which every installed sink is a
+   different one, once a sink has been joined (its attach handle dropped, or it was rejected by attach) no
+   append through the global delivers to it any more: everything it accepted precedes its join. *)
+Theorem c17_no_delivery_after_join : forall ops,
+  NoDup (flat_map op_sinks ops) -> forallb (fun o => negb (is_via o)) ops = true ->
+  forall l1 l2 sk e, log (fst (run init ops)) = l1 ++ Joined sk :: l2 -> ~ In (Recv sk e) l2.
+Proof. exact no_delivery_after_join. Qed.
+Print Assumptions c17_no_delivery_after_join.
+
 (* Appends racing a detach, for every schedule of the atomic actions (any number of appender threads, with or
    without a thread-local test sink, one detaching thread): the attached sink is joined at most once, nothing
    is delivered to it after its join, every finished append was delivered exactly once to the right sink or
@@ -137,3 +147,10 @@ Example c17_example_race :
                  [WA 0; WD; WA 0; WA 0; WA 2; WD; WA 0; WD; WD; WA 1; WD; WD; WA 1; WA 1; WA 1] in
   map a_pc (aps s) = [AOk; AErr; AOk] /\ rlog s = [Recv 1 10; Recv 2 12; Joined 1] /\ acq s = [WA 0; WD; WA 1].
 Proof. vm_compute. repeat split; reflexivity. Qed.
+
+(* the premises of c17_no_delivery_after_join are satisfiable by a history that detaches and keeps appending *)
+Example c17_example_after_join :
+  let ops := [Attach 0 t0 1; Append 0 t0 7; SetTL 0 t1r0 2; DropHandle t0 0; TryAppend 0 t1r0 8; Attach 0 t0 3; Append 0 t0 9] in
+  NoDup (flat_map op_sinks ops) /\ forallb (fun o => negb (is_via o)) ops = true /\
+  log (fst (run init ops)) = [Recv 1 7; Joined 1; Recv 2 8; Recv 3 9].
+Proof. vm_compute. repeat split; auto. repeat constructor; cbn; intuition discriminate. Qed.
